@@ -4,7 +4,7 @@
     Operation [99] is the final drop of the object: its result is what the harness measures
     while dropping ([keys dropped; values dropped; double drops; live tracked objects; live
     heap blocks allocated by the object; poison damage]). *)
-From VF Require Import Base Iter Enc Lru LruStep Slru TwoQ Arc CacheStep Tiny WTiny Sampled TinyStep Sizing Heap HeapStep.
+From VF Require Import Base Iter Enc Lru LruStep Slru TwoQ Arc CacheStep Tiny WTiny Sampled TinyStep Sizing Heap HeapStep Fault FaultStep.
 Open Scope Z_scope.
 
 Inductive ustate :=
@@ -18,7 +18,8 @@ Inductive ustate :=
 | USampled (s : sampled)
 | UPutRes
 | UCtor
-| UHeap (s : hstate).
+| UHeap (s : hstate)
+| UFault (s : fstate).
 
 Definition uinit (kind : Z) (cfg : list Z) : option ustate :=
   match kind with
@@ -32,6 +33,7 @@ Definition uinit (kind : Z) (cfg : list Z) : option ustate :=
   | 7 => Some UPutRes
   | 8 => Some UCtor
   | 9 => option_map UHeap (hinit cfg)
+  | 10 => option_map UFault (finit cfg)
   | _ => None
   end.
 
@@ -49,7 +51,12 @@ Definition uretained (s : ustate) : nat :=
   | UPutRes => 0%nat
   | UCtor => 0%nat
   | UHeap s => hretained s
+  | UFault s => fretained s
   end.
+
+(** tracked objects that are alive but in no node (lost by a panic in user code): kind 10 only *)
+Definition uleaked (s : ustate) : nat :=
+  match s with UFault s => fleaked s | _ => 0%nat end.
 
 Definition drop_out (n : nat) : list Z := [zn n; zn n; 0; 0; 0; 0].
 
@@ -89,7 +96,7 @@ Definition putres_step (op : list Z) : option (ustate * list Z * list Z) :=
 
 Definition ustep (s : ustate) (op : list Z) : option (ustate * list Z * list Z) :=
   match op with
-  | [99] => Some (UDead, match s with UHeap hs => hdrop_out hs | _ => drop_out (uretained s) end, [0])
+  | [99] => Some (UDead, match s with UHeap hs => hdrop_out hs | UFault fs => fdrop_out fs | _ => drop_out (uretained s) end, [0])
   | _ =>
     match s with
     | UDead => None
@@ -103,6 +110,7 @@ Definition ustep (s : ustate) (op : list Z) : option (ustate * list Z * list Z) 
     | UPutRes => putres_step op
     | UCtor => match ctor_step op with Some out => Some (UCtor, out, [0]) | None => None end
     | UHeap s => lift UHeap (hstep_enc s op)
+    | UFault s => lift UFault (fstep_enc s op)
     end
   end.
 
@@ -119,4 +127,5 @@ Definition usnap (s : ustate) : list Z :=
   | UPutRes => []
   | UCtor => []
   | UHeap s => hsnap s
+  | UFault s => fsnap s
   end.
